@@ -27,7 +27,7 @@ META = {
     "design_ref": "7/C35",
     "shards": {"quick": 2, "thorough": 16},
     "budget_s": {"quick": 50, "thorough": 330},
-    "min_evals": {"quick": 1500, "thorough": 60000},
+    "min_evals": {"quick": 1500, "thorough": 20000},
     "min_nontrivial": 300,
     "allow_rejections": False,
     "deciding": ["shift_rule.single", "shift_rule.multi"],
@@ -192,11 +192,29 @@ def mp_residual(rule, freq_list, orders, xs, idx):
     return float(abs(total - ref)), float(total), float(ref), " · ".join(names)
 
 
+
+def _cap_per_mechanism(ctx, cap=3):
+    """Keep at most `cap` witnesses per (monitor, mechanism) so that a frequent finding cannot crowd out other mechanisms
+    (the bus keeps 40 witnesses per shard); totals stay available as counters."""
+    orig, seen = ctx.violation, {}
+
+    def violation(monitor, message, case=None, mech=None, observed=None, expected=None):
+        k = (monitor, mech)
+        seen[k] = seen.get(k, 0) + 1
+        ctx.count(f"violations:{mech}")
+        if seen[k] <= cap:
+            orig(monitor, message, case=case, mech=mech, observed=observed, expected=expected)
+    ctx.violation = violation
+
+
 def run(ctx):
+    _cap_per_mechanism(ctx)
     import warnings
 
     import numpy as np
     from pennylane.gradients import generate_multi_shift_rule, generate_shift_rule
+
+    confirmed = [0]
 
     def one(monitor, fn, freq_list, shift_list, orders, clss, i):
         """one rule: call the real function, apply it to the basis, classify"""
@@ -243,11 +261,16 @@ def run(ctx):
         ctx.note("largest_normalised_residual_seen", worst[0] / max(1.0, sumc))
         if worst[0] <= bound:
             return
-        # ---- candidate violation: confirm with 50-digit arithmetic on the returned numbers
-        res_mp, got_mp, ref_mp, name = mp_residual(rule, freq_list, orders, worst[4], worst[1])
-        if res_mp <= bound:
-            ctx.inconclusive_case(f"float residual {worst[0]:.3g} not confirmed by mpmath ({res_mp:.3g}) for {case}")
-            return
+        # ---- candidate violation: confirm with 50-digit arithmetic on the returned numbers (first 12 per shard; a residual
+        #      more than 1000x above the bound cannot be a float evaluation artefact and is reported directly afterwards)
+        confirmed[0] += 1
+        if confirmed[0] <= 12 or worst[0] <= 1e3 * bound:
+            res_mp, got_mp, ref_mp, name = mp_residual(rule, freq_list, orders, worst[4], worst[1])
+            if res_mp <= bound:
+                ctx.inconclusive_case(f"float residual {worst[0]:.3g} not confirmed by mpmath ({res_mp:.3g}) for {case}")
+                return
+        else:
+            res_mp, got_mp, ref_mp, name = worst[0], worst[2], worst[3], f"basis product {tuple(int(v) for v in worst[1])}"
         # mechanism: computed from the INPUT classes
         if any(inf["ap_not_multiples"] and inf["default_shifts"] for inf in infos):
             mech = "equidistant-formula-on-non-multiple-frequencies"
@@ -265,7 +288,7 @@ def run(ctx):
                       f"cond of the shift system {case['cond']})", case={**case, "rule": rule, "x": worst[4]}, mech=mech, observed=got_mp,
                       expected=ref_mp)
 
-    N = ctx.n(2400, 200000)
+    N = ctx.n(2400, 60000)
     for k in range(N):
         i = ctx.shard + k * ctx.nshards
         if ctx.only_case is not None and i != ctx.only_case:
